@@ -73,10 +73,10 @@ func (m *c31Mounted) GetLink() link.MountedLink    { return nil }
 func init() {
 	register(&Spec{
 		ID: "C31", World: "OBJ",
-		New:        func() dsim.World { return &c31World{} },
+		New:        func() dsim.World { return &c31Switch{} },
 		Cfg:        dsim.Config{MaxChaosSteps: 80, MaxStableSteps: 500, Horizon: time.Minute},
-		Real:       []string{"link/solicit.NewSolicitMountedStream value (AcceptMountedStream, Close, IsAccepted)"},
-		Stub:       []string{"mounted stream stub that counts Close calls", "no link, no controller (part b: several matching directives in one controller is not simulated yet)"},
+		Real:       []string{"link/solicit.NewSolicitMountedStream value (AcceptMountedStream, Close, IsAccepted)", "part (b): link/solicit/controller.Controller.resolveMatch and the whole C30 stack"},
+		Stub:       []string{"part (a): mounted stream stub that counts Close calls, no link, no controller", "part (b): two full nodes over a simlink pair (the C30 world) with several local solicitations matching one incoming stream"},
 		FaultKinds: []string{"fault:preempted-between-check-and-lock"},
 		Notes:      []string{"linearizability checked with porcupine v1.3.0; Unknown (timeout) is counted as inconclusive, never reported"},
 	})
@@ -216,3 +216,23 @@ func (w *c31World) Final(s *dsim.Sim, stuck bool) *dsim.Violation {
 }
 
 func (w *c31World) Teardown(s *dsim.Sim) {}
+
+// c31Switch picks per run between part (a) (the value object under concurrent callers)
+// and part (b) (several local solicitations matching one stream inside the controller).
+type c31Switch struct{ inner dsim.World }
+
+func (w *c31Switch) Setup(s *dsim.Sim) {
+	if s.Tape.Bool(1, 3, "part-b") {
+		w.inner = &solicitWorld{prop: "C31"}
+	} else {
+		w.inner = &c31World{}
+	}
+	w.inner.Setup(s)
+}
+func (w *c31Switch) Actions(s *dsim.Sim, add func(dsim.Action)) { w.inner.Actions(s, add) }
+func (w *c31Switch) Invariant(s *dsim.Sim) *dsim.Violation      { return w.inner.Invariant(s) }
+func (w *c31Switch) Done(s *dsim.Sim) bool                      { return w.inner.Done(s) }
+func (w *c31Switch) Final(s *dsim.Sim, stuck bool) *dsim.Violation {
+	return w.inner.Final(s, stuck)
+}
+func (w *c31Switch) Teardown(s *dsim.Sim) { w.inner.Teardown(s) }
